@@ -8,7 +8,7 @@
      sealed_fetch_ok, active_fetch_ok
                         frac_fetch g (compile f) ids = Ok (map (lookup f) ids) for ARBITRARY ids. *)
 From Coq Require Import Lia ZifyN ZifyNat.
-From C04 Require Import Model ProofsBase ProofsSealed ProofsFetch.
+From C04 Require Import Model ProofsBase ProofsSealed ProofsFetch ProofsPos.
 Open Scope N_scope.
 
 (* ------------------------------------------------------------------ 0. lists *)
@@ -139,208 +139,336 @@ Proof.
 Qed.
 
 (* ------------------------------------------------------------------ 3. IndexFetch *)
-Section Assumed.
-  Hypothesis raw_pos_arith : forall b off, off <= max_doc_offset -> raw_pos b off = b * 1073741824 + off + 1.
-  Hypothesis pack_unpack : forall b off, b < two32 -> off <= max_doc_offset ->
-    pack_pos b off = Ok (raw_pos b off) /\ unpack_pos (raw_pos b off) = (b, off) /\ raw_pos b off <> pos_not_found /\ raw_pos b off <> 0.
-  Hypothesis raw_pos_inj : forall b1 o1 b2 o2, o1 <= max_doc_offset -> o2 <= max_doc_offset -> raw_pos b1 o1 = raw_pos b2 o2 -> b1 = b2 /\ o1 = o2.
-  Hypothesis group_offsets_spec : forall ps,
-    let gs := group_offsets ps in
-    NoDup (map (fun g : N * list N * list N => fst (fst g)) gs) /\
-    (forall b offs idx, In (b, offs, idx) gs -> length offs = length idx) /\
-    (forall i p, nth_error ps i = Some p -> p <> pos_not_found ->
-       exists offs idx j, In (fst (unpack_pos p), offs, idx) gs /\
-                          nth_error offs j = Some (snd (unpack_pos p)) /\ nth_error idx j = Some (N.of_nat i)) /\
-    (forall b offs idx j o i, In (b, offs, idx) gs -> nth_error offs j = Some o -> nth_error idx j = Some i ->
-       exists p, nth_error ps (N.to_nat i) = Some p /\ p <> pos_not_found /\ unpack_pos p = (b, o)) /\
-    NoDup (flat_map (fun g : N * list N * list N => snd g) gs).
-  Hypothesis active_pos_packed : forall k apos x b off, b < two32 -> off <= max_doc_offset ->
-    PositiveMap.find (key x) apos = Some (raw_pos b off) -> active_pos k apos x = if k <=? b then pos_not_found else raw_pos b off.
-  Hypothesis build_ptab_find : forall l i t k, PositiveMap.find (ikey k) (build_ptab l i t) =
-    if (i <=? k) && (k <? i + N.of_nat (length l)) then nth_error l (N.to_nat (k - i)) else PositiveMap.find (ikey k) t.
-  Hypothesis pos_by_lids_ok : forall g ptab lids prev, 1 <= ipb g ->
-    Forall (fun l => l < N.of_nat (length ptab)) lids -> (forall pi ps, prev = Some (pi, ps) -> ps = pi * ipb g) ->
-    pos_by_lids g (build_ptab ptab 0 (PositiveMap.empty _)) (N.of_nat (length ptab)) prev lids =
-    Ok (map (fun l => if l =? 0 then pos_not_found else nth (N.to_nat l) ptab 0) lids).
+(* processor.IndexFetch: when every found position points into the block offsets table and ReadDocs returns
+   the documents at the requested offsets of a block, the result holds, per request index, the document at
+   its position (None for DocPosNotFound) *)
+Lemma index_fetch_ok : forall (D : Type) (boffs : list N) (read : N -> list N -> res (list D)) (ps : list N)
+                              (want : N -> N -> D),
+  (forall p, In p ps -> p <> pos_not_found ->
+     exists bo, nth_error boffs (N.to_nat (fst (unpack_pos p))) = Some bo) ->
+  (forall b bo offs, nth_error boffs (N.to_nat b) = Some bo ->
+     (forall o, In o offs -> exists p, In p ps /\ p <> pos_not_found /\ unpack_pos p = (b, o)) ->
+     read bo offs = Ok (map (want b) offs)) ->
+  index_fetch boffs read ps =
+  Ok (map (fun p => if p =? pos_not_found then None
+                    else Some (want (fst (unpack_pos p)) (snd (unpack_pos p)))) ps).
+Proof.
+  intros D boffs read ps want H1 H2. unfold index_fetch.
+  pose proof (group_offsets_spec ps) as G. cbv zeta in G. destruct G as [_ [G2 [G3 [G4 _]]]].
+  assert (Hsrc : forall b offs idx, In (b, offs, idx) (group_offsets ps) ->
+            forall o, In o offs -> exists p, In p ps /\ p <> pos_not_found /\ unpack_pos p = (b, o)).
+  { intros b offs idx Hg o Ho. destruct (In_nth_error _ _ Ho) as [j Hj].
+    destruct (nth_error idx j) as [i|] eqn:Ei.
+    - destruct (G4 b offs idx j o i Hg Hj Ei) as [p [P1 [P2 P3]]]. exists p.
+      split; [eapply nth_error_In; exact P1|]. split; assumption.
+    - exfalso. apply nth_error_None in Ei. rewrite <- (G2 b offs idx Hg) in Ei.
+      assert (nth_error offs j <> None) by congruence. apply nth_error_Some in H. lia. }
+  rewrite (fetch_groups_ok boffs read want).
+  2:{ intros b offs idx Hg. split; [apply (G2 b offs idx Hg)|].
+      pose proof (group_offsets_ne ps b offs idx Hg) as Hne.
+      destruct offs as [|o0 offs']; [congruence|].
+      destruct (Hsrc b _ idx Hg o0 (or_introl eq_refl)) as [p [P1 [P2 P3]]].
+      destruct (H1 p P1 P2) as [bo Hbo]. rewrite P3 in Hbo. simpl in Hbo.
+      exists bo. split; [exact Hbo|]. apply H2; [exact Hbo|]. apply (Hsrc b _ idx Hg). }
+  f_equal. apply read_arr_spec. intros k p Hk. rewrite N.add_0_l.
+  destruct (p =? pos_not_found) eqn:E.
+  - apply N.eqb_eq in E.
+    apply (fold_find_inv (gwrites want (group_offsets ps)) (PositiveMap.empty D) (N.of_nat k) (fun o => o = None)).
+    + apply PositiveMap.gempty.
+    + intros d Hd. exfalso. apply in_gwrites in Hd.
+      destruct Hd as [b [offs [idx [j [o [Hg [Hi [Ho _]]]]]]]].
+      destruct (G4 b offs idx j o _ Hg Ho Hi) as [p' [P1 [P2 _]]].
+      rewrite Nat2N.id in P1. congruence.
+  - apply N.eqb_neq in E. apply fold_find_some.
+    + destruct (G3 k p Hk E) as [offs [idx [j [Hg [Ho Hi]]]]].
+      apply in_gwrites. exists (fst (unpack_pos p)), offs, idx, j, (snd (unpack_pos p)). auto.
+    + intros d Hd. apply in_gwrites in Hd.
+      destruct Hd as [b [offs [idx [j [o [Hg [Hi [Ho Hd]]]]]]]].
+      destruct (G4 b offs idx j o _ Hg Ho Hi) as [p' [P1 [_ P3]]].
+      rewrite Nat2N.id in P1. rewrite Hk in P1. inversion P1; subst p'. rewrite P3. exact Hd.
+Qed.
 
-  (* processor.IndexFetch: when every found position points into the block offsets table and ReadDocs returns
-     the documents at the requested offsets of a block, the result holds, per request index, the document at
-     its position (None for DocPosNotFound) *)
-  Lemma index_fetch_ok : forall (D : Type) (boffs : list N) (read : N -> list N -> res (list D)) (ps : list N)
-                                (want : N -> N -> D),
-    (forall p, In p ps -> p <> pos_not_found ->
-       exists bo, nth_error boffs (N.to_nat (fst (unpack_pos p))) = Some bo) ->
-    (forall b bo offs, nth_error boffs (N.to_nat b) = Some bo ->
-       (forall o, In o offs -> exists p, In p ps /\ p <> pos_not_found /\ unpack_pos p = (b, o)) ->
-       read bo offs = Ok (map (want b) offs)) ->
-    index_fetch boffs read ps =
-    Ok (map (fun p => if p =? pos_not_found then None
-                      else Some (want (fst (unpack_pos p)) (snd (unpack_pos p)))) ps).
-  Proof.
-    intros D boffs read ps want H1 H2. unfold index_fetch.
-    pose proof (group_offsets_spec ps) as G. cbv zeta in G. destruct G as [_ [G2 [G3 [G4 _]]]].
-    assert (Hsrc : forall b offs idx, In (b, offs, idx) (group_offsets ps) ->
-              forall o, In o offs -> exists p, In p ps /\ p <> pos_not_found /\ unpack_pos p = (b, o)).
-    { intros b offs idx Hg o Ho. destruct (In_nth_error _ _ Ho) as [j Hj].
-      destruct (nth_error idx j) as [i|] eqn:Ei.
-      - destruct (G4 b offs idx j o i Hg Hj Ei) as [p [P1 [P2 P3]]]. exists p.
-        split; [eapply nth_error_In; exact P1|]. split; assumption.
-      - exfalso. apply nth_error_None in Ei. rewrite <- (G2 b offs idx Hg) in Ei.
-        assert (nth_error offs j <> None) by congruence. apply nth_error_Some in H. lia. }
-    rewrite (fetch_groups_ok boffs read want).
-    2:{ intros b offs idx Hg. split; [apply (G2 b offs idx Hg)|].
-        pose proof (group_offsets_ne ps b offs idx Hg) as Hne.
-        destruct offs as [|o0 offs']; [congruence|].
-        destruct (Hsrc b _ idx Hg o0 (or_introl eq_refl)) as [p [P1 [P2 P3]]].
-        destruct (H1 p P1 P2) as [bo Hbo]. rewrite P3 in Hbo. simpl in Hbo.
-        exists bo. split; [exact Hbo|]. apply H2; [exact Hbo|]. apply (Hsrc b _ idx Hg). }
-    f_equal. apply read_arr_spec. intros k p Hk. rewrite N.add_0_l.
-    destruct (p =? pos_not_found) eqn:E.
-    - apply N.eqb_eq in E.
-      apply (fold_find_inv (gwrites want (group_offsets ps)) (PositiveMap.empty D) (N.of_nat k) (fun o => o = None)).
-      + apply PositiveMap.gempty.
-      + intros d Hd. exfalso. apply in_gwrites in Hd.
-        destruct Hd as [b [offs [idx [j [o [Hg [Hi [Ho _]]]]]]]].
-        destruct (G4 b offs idx j o _ Hg Ho Hi) as [p' [P1 [P2 _]]].
-        rewrite Nat2N.id in P1. congruence.
-    - apply N.eqb_neq in E. apply fold_find_some.
-      + destruct (G3 k p Hk E) as [offs [idx [j [Hg [Ho Hi]]]]].
-        apply in_gwrites. exists (fst (unpack_pos p)), offs, idx, j, (snd (unpack_pos p)). auto.
-      + intros d Hd. apply in_gwrites in Hd.
-        destruct Hd as [b [offs [idx [j [o [Hg [Hi [Ho Hd]]]]]]]].
-        destruct (G4 b offs idx j o _ Hg Ho Hi) as [p' [P1 [_ P3]]].
-        rewrite Nat2N.id in P1. rewrite Hk in P1. inversion P1; subst p'. rewrite P3. exact Hd.
-  Qed.
+(* ---------------------------------------------------------------- 4. the physical layout *)
+Lemma split_blocks_concat : forall (A : Type) sp (l : list A), concat (split_blocks sp l) = l.
+Proof.
+  induction sp as [|n r IH]; intros l.
+  - destruct l; simpl; [reflexivity|rewrite app_nil_r; reflexivity].
+  - simpl. rewrite IH. apply firstn_skipn.
+Qed.
 
-  (* ---------------------------------------------------------------- 4. the physical layout *)
-  Lemma split_blocks_concat : forall (A : Type) sp (l : list A), concat (split_blocks sp l) = l.
-  Proof.
-    induction sp as [|n r IH]; intros l.
-    - destruct l; simpl; [reflexivity|rewrite app_nil_r; reflexivity].
-    - simpl. rewrite IH. apply firstn_skipn.
-  Qed.
+(* inside a block: the position stored for a document and the cell the block holds at that offset *)
+Lemma block_in : forall b blk o0 x d, In (x, d) blk ->
+  exists o, In (x, raw_pos b o) (block_positions b o0 blk) /\ assoc o (cells_from o0 blk) = Some d /\
+            o0 <= o /\ o + 4 + snd d <= o0 + block_size blk.
+Proof.
+  induction blk as [|[x0 d0] r IH]; intros o0 x d H; [contradiction|].
+  destruct H as [H|H].
+  - inversion H; subst. exists o0. cbn [block_positions cells_from assoc block_size]. rewrite N.eqb_refl.
+    split; [left; reflexivity|]. split; [reflexivity|lia].
+  - destruct (IH (o0 + 4 + snd d0) x d H) as [o [A [B [C E]]]]. exists o.
+    cbn [block_positions cells_from assoc block_size]. split; [right; exact A|].
+    replace (o0 =? o) with false by (symmetry; apply N.eqb_neq; lia). split; [exact B|lia].
+Qed.
 
-  (* inside a block: the position stored for a document and the cell the block holds at that offset *)
-  Lemma block_in : forall b blk o0 x d, In (x, d) blk ->
-    exists o, In (x, raw_pos b o) (block_positions b o0 blk) /\ assoc o (cells_from o0 blk) = Some d /\
-              o0 <= o /\ o + 4 + snd d <= o0 + block_size blk.
-  Proof.
-    induction blk as [|[x0 d0] r IH]; intros o0 x d H; [contradiction|].
-    destruct H as [H|H].
-    - inversion H; subst. exists o0. cbn [block_positions cells_from assoc block_size]. rewrite N.eqb_refl.
-      split; [left; reflexivity|]. split; [reflexivity|lia].
-    - destruct (IH (o0 + 4 + snd d0) x d H) as [o [A [B [C E]]]]. exists o.
-      cbn [block_positions cells_from assoc block_size]. split; [right; exact A|].
-      replace (o0 =? o) with false by (symmetry; apply N.eqb_neq; lia). split; [exact B|lia].
-  Qed.
+Lemma block_offsets_length : forall blks bo0, length (block_offsets bo0 blks) = length blks.
+Proof. induction blks as [|b r IH]; intros bo0; [reflexivity|]. simpl. rewrite IH. reflexivity. Qed.
 
-  Lemma block_offsets_length : forall blks bo0, length (block_offsets bo0 blks) = length blks.
-  Proof. induction blks as [|b r IH]; intros bo0; [reflexivity|]. simpl. rewrite IH. reflexivity. Qed.
+(* the file offset of block bi and the decoded block found there *)
+Lemma block_at : forall blks bo0 bi blk, nth_error blks bi = Some blk ->
+  exists bo, nth_error (block_offsets bo0 blks) bi = Some bo /\
+             assoc bo (combine (block_offsets bo0 blks) (map (cells_from 0) blks)) = Some (cells_from 0 blk) /\
+             bo0 <= bo.
+Proof.
+  induction blks as [|b0 r IH]; intros bo0 bi blk H; [destruct bi; discriminate|].
+  destruct bi as [|bi].
+  - simpl in H. inversion H; subst. exists bo0. cbn [block_offsets map combine assoc nth_error].
+    rewrite N.eqb_refl. split; [reflexivity|]. split; [reflexivity|lia].
+  - simpl in H. destruct (IH (bo0 + 33 + block_size b0) bi blk H) as [bo [A [B C]]]. exists bo.
+    cbn [block_offsets map combine assoc nth_error]. split; [exact A|].
+    replace (bo0 =? bo) with false by (symmetry; apply N.eqb_neq; lia). split; [exact B|lia].
+Qed.
 
-  (* the file offset of block bi and the decoded block found there *)
-  Lemma block_at : forall blks bo0 bi blk, nth_error blks bi = Some blk ->
-    exists bo, nth_error (block_offsets bo0 blks) bi = Some bo /\
-               assoc bo (combine (block_offsets bo0 blks) (map (cells_from 0) blks)) = Some (cells_from 0 blk) /\
-               bo0 <= bo.
-  Proof.
-    induction blks as [|b0 r IH]; intros bo0 bi blk H; [destruct bi; discriminate|].
-    destruct bi as [|bi].
-    - simpl in H. inversion H; subst. exists bo0. cbn [block_offsets map combine assoc nth_error].
-      rewrite N.eqb_refl. split; [reflexivity|]. split; [reflexivity|lia].
-    - simpl in H. destruct (IH (bo0 + 33 + block_size b0) bi blk H) as [bo [A [B C]]]. exists bo.
-      cbn [block_offsets map combine assoc nth_error]. split; [exact A|].
-      replace (bo0 =? bo) with false by (symmetry; apply N.eqb_neq; lia). split; [exact B|lia].
-  Qed.
+Lemma layout_in : forall blks b0 bi blk e, nth_error blks bi = Some blk ->
+  In e (block_positions (b0 + N.of_nat bi) 0 blk) -> In e (layout_positions b0 blks).
+Proof.
+  induction blks as [|blk0 r IH]; intros b0 bi blk e H Hi; [destruct bi; discriminate|].
+  cbn [layout_positions]. apply in_or_app. destruct bi as [|bi].
+  - simpl in H. inversion H; subst. left. simpl in Hi. rewrite N.add_0_r in Hi. exact Hi.
+  - right. simpl in H. apply (IH (b0 + 1) bi blk e H).
+    replace (b0 + 1 + N.of_nat bi) with (b0 + N.of_nat (S bi)) by lia. exact Hi.
+Qed.
 
-  Lemma layout_in : forall blks b0 bi blk e, nth_error blks bi = Some blk ->
-    In e (block_positions (b0 + N.of_nat bi) 0 blk) -> In e (layout_positions b0 blks).
-  Proof.
-    induction blks as [|blk0 r IH]; intros b0 bi blk e H Hi; [destruct bi; discriminate|].
-    cbn [layout_positions]. apply in_or_app. destruct bi as [|bi].
-    - simpl in H. inversion H; subst. left. simpl in Hi. rewrite N.add_0_r in Hi. exact Hi.
-    - right. simpl in H. apply (IH (b0 + 1) bi blk e H).
-      replace (b0 + 1 + N.of_nat bi) with (b0 + N.of_nat (S bi)) by lia. exact Hi.
-  Qed.
+Lemma fst_block_positions : forall b blk o, map fst (block_positions b o blk) = map fst blk.
+Proof. induction blk as [|[x d] r IH]; intros o; [reflexivity|]. simpl. rewrite IH. reflexivity. Qed.
 
-  Lemma fst_block_positions : forall b blk o, map fst (block_positions b o blk) = map fst blk.
-  Proof. induction blk as [|[x d] r IH]; intros o; [reflexivity|]. simpl. rewrite IH. reflexivity. Qed.
+Lemma fst_layout_positions : forall blks b, map fst (layout_positions b blks) = map fst (concat blks).
+Proof.
+  induction blks as [|blk r IH]; intros b; [reflexivity|].
+  simpl. rewrite !map_app, fst_block_positions, IH. reflexivity.
+Qed.
 
-  Lemma fst_layout_positions : forall blks b, map fst (layout_positions b blks) = map fst (concat blks).
-  Proof.
-    induction blks as [|blk r IH]; intros b; [reflexivity|].
-    simpl. rewrite !map_app, fst_block_positions, IH. reflexivity.
-  Qed.
+(* DocsPositions *)
+Lemma build_apos_in : forall l x p, NoDup (map fst l) -> Forall (fun y : id => snd y <= max64) (map fst l) ->
+  In (x, p) l -> PositiveMap.find (key x) (build_apos l) = Some p.
+Proof.
+  induction l as [|[x0 p0] r IH]; intros x p Hn Hf Hi; [contradiction|].
+  cbn [map fst build_apos In] in *. inversion Hn; subst. inversion Hf; subst. destruct Hi as [Hi|Hi].
+  - inversion Hi; subst. apply PositiveMap.gss.
+  - rewrite PositiveMap.gso; [apply IH; assumption|].
+    intros E. apply key_inj in E.
+    + subst x0. apply H1. apply (in_map fst) in Hi. exact Hi.
+    + rewrite Forall_forall in H4. apply (H4 x). apply (in_map fst) in Hi. exact Hi.
+    + exact H3.
+Qed.
 
-  (* DocsPositions *)
-  Lemma build_apos_in : forall l x p, NoDup (map fst l) -> Forall (fun y : id => snd y <= max64) (map fst l) ->
-    In (x, p) l -> PositiveMap.find (key x) (build_apos l) = Some p.
-  Proof.
-    induction l as [|[x0 p0] r IH]; intros x p Hn Hf Hi; [contradiction|].
-    simpl in *. inversion Hn; subst. inversion Hf; subst. destruct Hi as [Hi|Hi].
-    - inversion Hi; subst. apply PositiveMap.gss.
-    - rewrite PositiveMap.gso; [apply IH; assumption|].
-      intros E. apply key_inj in E.
-      + subst x0. apply H1. apply (in_map fst) in Hi. exact Hi.
-      + rewrite Forall_forall in H4. apply (H4 x). apply (in_map fst) in Hi. exact Hi.
-      + exact H3.
-  Qed.
+Lemma build_apos_notin : forall l x, snd x <= max64 -> Forall (fun y : id => snd y <= max64) (map fst l) ->
+  ~ In x (map fst l) -> PositiveMap.find (key x) (build_apos l) = None.
+Proof.
+  induction l as [|[x0 p0] r IH]; intros x Hx Hf Hn; [apply PositiveMap.gempty|].
+  cbn [map fst build_apos In] in *. inversion Hf; subst. rewrite PositiveMap.gso.
+  - apply IH; [assumption|assumption|]. intros H; apply Hn; right; exact H.
+  - intros E. apply key_inj in E; [|assumption|assumption]. apply Hn. left. symmetry; exact E.
+Qed.
 
-  Lemma build_apos_notin : forall l x, snd x <= max64 -> Forall (fun y : id => snd y <= max64) (map fst l) ->
-    ~ In x (map fst l) -> PositiveMap.find (key x) (build_apos l) = None.
-  Proof.
-    induction l as [|[x0 p0] r IH]; intros x Hx Hf Hn; [apply PositiveMap.gempty|].
-    simpl in *. inversion Hf; subst. rewrite PositiveMap.gso.
-    - apply IH; [assumption|assumption|]. intros H; apply Hn; right; exact H.
-    - intros E. apply key_inj in E; [|assumption|assumption]. apply Hn. left. symmetry; exact E.
-  Qed.
+Lemma layout_ids : forall f, map fst (layout_positions 0 (blocks_of f)) = map fst (f_docs f).
+Proof. intros f. rewrite fst_layout_positions. unfold blocks_of. rewrite split_blocks_concat. reflexivity. Qed.
 
-  Lemma layout_ids : forall f, map fst (layout_positions 0 (blocks_of f)) = map fst (f_docs f).
-  Proof. intros f. rewrite fst_layout_positions. unfold blocks_of. rewrite split_blocks_concat. reflexivity. Qed.
+Lemma docs_rids : forall l, docs_wf l -> Forall (fun y : id => snd y <= max64) (map fst l).
+Proof.
+  intros l [_ H]. apply Forall_forall. intros y Hy. apply in_map_iff in Hy. destruct Hy as [e [E He]].
+  rewrite Forall_forall in H. subst y. apply (H e He).
+Qed.
 
-  Lemma docs_rids : forall l, docs_wf l -> Forall (fun y : id => snd y <= max64) (map fst l).
-  Proof.
-    intros l [_ H]. apply Forall_forall. intros y Hy. apply in_map_iff in Hy. destruct Hy as [e [E He]].
-    rewrite Forall_forall in H. subst y. apply (H e He).
-  Qed.
+(* every stored document has a packed position under its ID, and the file holds it there *)
+Lemma stored_pos : forall f x d, docs_wf (f_docs f) -> layout_wf f -> In (x, d) (f_docs f) ->
+  exists b o blk, b < N.of_nat (length (blocks_of f)) /\ b < two32 /\ o <= max_doc_offset /\
+    PositiveMap.find (key x) (apos_of f) = Some (raw_pos b o) /\
+    nth_error (blocks_of f) (N.to_nat b) = Some blk /\ assoc o (cells_from 0 blk) = Some d.
+Proof.
+  intros f x d Hw [Hl1 Hl2] Hi.
+  assert (Hc : In (x, d) (concat (blocks_of f))) by (unfold blocks_of; rewrite split_blocks_concat; exact Hi).
+  apply in_concat in Hc. destruct Hc as [blk [Hb Hx]].
+  destruct (In_nth_error _ _ Hb) as [bi Hbi].
+  destruct (block_in (N.of_nat bi) blk 0 x d Hx) as [o [A [B [_ C]]]].
+  assert (Hlen : (bi < length (blocks_of f))%nat) by (apply nth_error_Some; congruence).
+  rewrite Forall_forall in Hl1. specialize (Hl1 blk Hb).
+  exists (N.of_nat bi), o, blk. split; [lia|]. split; [lia|]. split; [lia|].
+  split; [|split; [rewrite Nat2N.id; exact Hbi|exact B]].
+  unfold apos_of. apply build_apos_in.
+  - rewrite layout_ids. apply Hw.
+  - rewrite layout_ids. apply docs_rids. exact Hw.
+  - apply (layout_in (blocks_of f) 0 bi blk); [exact Hbi|]. rewrite N.add_0_l. exact A.
+Qed.
 
-  (* every stored document has a packed position under its ID, and the file holds it there *)
-  Lemma stored_pos : forall f x d, docs_wf (f_docs f) -> layout_wf f -> In (x, d) (f_docs f) ->
-    exists b o blk, b < N.of_nat (length (blocks_of f)) /\ b < two32 /\ o <= max_doc_offset /\
-      PositiveMap.find (key x) (apos_of f) = Some (raw_pos b o) /\
-      nth_error (blocks_of f) (N.to_nat b) = Some blk /\ assoc o (cells_from 0 blk) = Some d.
-  Proof.
-    intros f x d Hw [Hl1 Hl2] Hi.
-    assert (Hc : In (x, d) (concat (blocks_of f))) by (unfold blocks_of; rewrite split_blocks_concat; exact Hi).
-    apply in_concat in Hc. destruct Hc as [blk [Hb Hx]].
-    destruct (In_nth_error _ _ Hb) as [bi Hbi].
-    destruct (block_in (N.of_nat bi) blk 0 x d Hx) as [o [A [B [_ C]]]].
-    assert (Hlen : (bi < length (blocks_of f))%nat) by (apply nth_error_Some; congruence).
-    rewrite Forall_forall in Hl1. specialize (Hl1 blk Hb).
-    exists (N.of_nat bi), o, blk. split; [lia|]. split; [lia|]. split; [lia|].
-    split; [|split; [rewrite Nat2N.id; exact Hbi|exact B]].
-    unfold apos_of. apply build_apos_in.
-    - rewrite layout_ids. apply Hw.
-    - rewrite layout_ids. apply docs_rids. exact Hw.
-    - apply (layout_in (blocks_of f) 0 bi blk); [exact Hbi|]. rewrite N.add_0_l. exact A.
-  Qed.
+Lemma absent_pos : forall f x, docs_wf (f_docs f) -> snd x <= max64 -> lookup f x = None ->
+  PositiveMap.find (key x) (apos_of f) = None.
+Proof.
+  intros f x Hw Hx Hl. unfold apos_of. apply build_apos_notin; [exact Hx| |].
+  - rewrite layout_ids. apply docs_rids. exact Hw.
+  - rewrite layout_ids. apply lookup_docs_none. exact Hl.
+Qed.
 
-  Lemma absent_pos : forall f x, docs_wf (f_docs f) -> snd x <= max64 -> lookup f x = None ->
-    PositiveMap.find (key x) (apos_of f) = None.
-  Proof.
-    intros f x Hw Hx Hl. unfold apos_of. apply build_apos_notin; [exact Hx| |].
-    - rewrite layout_ids. apply docs_rids. exact Hw.
-    - rewrite layout_ids. apply lookup_docs_none. exact Hl.
-  Qed.
+Lemma blocks_file : forall f b bo, nth_error (p_boffs (phys_of f)) b = Some bo ->
+  exists blk, nth_error (blocks_of f) b = Some blk /\
+              assoc bo (p_file (phys_of f)) = Some (cells_from 0 blk).
+Proof.
+  intros f b bo H. unfold phys_of in *. cbn [p_boffs p_file] in *.
+  assert (Hlen : (b < length (blocks_of f))%nat).
+  { rewrite <- (block_offsets_length (blocks_of f) 0). apply nth_error_Some. congruence. }
+  destruct (nth_error (blocks_of f) b) as [blk|] eqn:E; [|apply nth_error_None in E; lia].
+  destruct (block_at (blocks_of f) 0 b blk E) as [bo' [A [B _]]].
+  rewrite A in H. inversion H; subst bo'. exists blk. split; [reflexivity|exact B].
+Qed.
 
-  Lemma blocks_file : forall f b bo, nth_error (p_boffs (phys_of f)) b = Some bo ->
-    exists blk, nth_error (blocks_of f) b = Some blk /\
-                assoc bo (p_file (phys_of f)) = Some (cells_from 0 blk).
-  Proof.
-    intros f b bo H. unfold phys_of in *. cbn [p_boffs p_file] in *.
-    assert (Hlen : (b < length (blocks_of f))%nat).
-    { rewrite <- (block_offsets_length (blocks_of f) 0). apply nth_error_Some. congruence. }
-    destruct (nth_error (blocks_of f) b) as [blk|] eqn:E; [|apply nth_error_None in E; lia].
-    destruct (block_at (blocks_of f) 0 b blk E) as [bo' [A [B _]]].
-    rewrite A in H. inversion H; subst bo'. exists blk. split; [reflexivity|exact B].
-  Qed.
-End Assumed.
+(* ------------------------------------------------------------------ 5. IndexFetch over the fraction's docs file *)
+(* the document lying at (block, in-block offset) *)
+Definition want_of (f : frac) (b o : N) : body :=
+  match nth_error (blocks_of f) (N.to_nat b) with
+  | Some blk => match assoc o (cells_from 0 blk) with Some d => d | None => (0, 0) end
+  | None => (0, 0)
+  end.
+Definition doc_at (f : frac) (p : N) : option body :=
+  if p =? pos_not_found then None else Some (want_of f (fst (unpack_pos p)) (snd (unpack_pos p))).
+(* a position the index may hand to IndexFetch: not found, or the packed position of a stored document *)
+Definition pos_ok (f : frac) (p : N) : Prop :=
+  p = pos_not_found \/
+  exists b o blk d, p = raw_pos b o /\ b < two32 /\ o <= max_doc_offset /\
+    nth_error (blocks_of f) (N.to_nat b) = Some blk /\ assoc o (cells_from 0 blk) = Some d.
+
+Lemma phys_fetch : forall f ps, Forall (pos_ok f) ps ->
+  index_fetch (p_boffs (phys_of f)) (read_abs (p_file (phys_of f))) ps = Ok (map (doc_at f) ps).
+Proof.
+  intros f ps Hp. rewrite Forall_forall in Hp.
+  assert (Hinv : forall p, In p ps -> p <> pos_not_found ->
+            exists b o blk d, unpack_pos p = (b, o) /\ nth_error (blocks_of f) (N.to_nat b) = Some blk /\
+                              assoc o (cells_from 0 blk) = Some d).
+  { intros p Hi Hn. destruct (Hp p Hi) as [E|[b [o [blk [d [E [Hb [Ho [Hblk Hd]]]]]]]]]; [contradiction|].
+    destruct (pack_unpack b o Hb Ho) as [_ [U _]]. exists b, o, blk, d. subst p. auto. }
+  unfold doc_at. apply (index_fetch_ok body _ _ ps (want_of f)).
+  - intros p Hi Hn. destruct (Hinv p Hi Hn) as [b [o [blk [d [U [Hblk Hd]]]]]]. rewrite U. cbn [fst].
+    destruct (block_at (blocks_of f) 0 (N.to_nat b) blk Hblk) as [bo [A _]]. exists bo. exact A.
+  - intros b bo offs Hbo Hsrc. destruct (blocks_file f _ bo Hbo) as [blk [Hblk Hfile]].
+    unfold read_abs. rewrite Hfile. apply map_res_ok. intros o Ho.
+    destruct (Hsrc o Ho) as [p [Hi [Hn U]]].
+    destruct (Hinv p Hi Hn) as [b' [o' [blk' [d [U' [Hblk' Hd]]]]]].
+    rewrite U in U'. inversion U'; subst b' o'. rewrite Hblk in Hblk'. inversion Hblk'; subst blk'.
+    unfold want_of. rewrite Hblk, Hd. reflexivity.
+Qed.
+
+Lemma doc_at_stored : forall f b o blk d, b < two32 -> o <= max_doc_offset ->
+  nth_error (blocks_of f) (N.to_nat b) = Some blk -> assoc o (cells_from 0 blk) = Some d ->
+  pos_ok f (raw_pos b o) /\ doc_at f (raw_pos b o) = Some d.
+Proof.
+  intros f b o blk d Hb Ho Hblk Hd. split.
+  - right. exists b, o, blk, d. auto.
+  - destruct (pack_unpack b o Hb Ho) as [_ [U [Nn _]]]. unfold doc_at.
+    replace (raw_pos b o =? pos_not_found) with false by (symmetry; apply N.eqb_neq; exact Nn).
+    rewrite U. cbn [fst snd]. unfold want_of. rewrite Hblk, Hd. reflexivity.
+Qed.
+
+Lemma doc_at_nf : forall f, pos_ok f pos_not_found /\ doc_at f pos_not_found = None.
+Proof. intros f. split; [left; reflexivity|]. unfold doc_at. rewrite N.eqb_refl. reflexivity. Qed.
+
+Lemma cf_phys_compile : forall f, cf_phys (compile f) = phys_of f.
+Proof. intros f. unfold compile. destruct (f_sealed f); reflexivity. Qed.
+
+(* ------------------------------------------------------------------ 6. the active fraction *)
+Lemma active_pos_ok : forall f x, docs_wf (f_docs f) -> layout_wf f -> id_u64 x ->
+  pos_ok f (active_pos (N.of_nat (length (blocks_of f))) (apos_of f) x) /\
+  doc_at f (active_pos (N.of_nat (length (blocks_of f))) (apos_of f) x) = lookup f x.
+Proof.
+  intros f x Hw Hl [_ Hx]. destruct (lookup f x) as [d|] eqn:E.
+  - unfold lookup in E. apply lookup_docs_in in E.
+    destruct (stored_pos f x d Hw Hl E) as [b [o [blk [Hb [Hb2 [Ho [Hf [Hblk Hd]]]]]]]].
+    rewrite (active_pos_packed _ _ x b o Hb2 Ho Hf).
+    replace (N.of_nat (length (blocks_of f)) <=? b) with false by (symmetry; apply N.leb_gt; exact Hb).
+    apply (doc_at_stored f b o blk d); assumption.
+  - unfold active_pos. rewrite (absent_pos f x Hw Hx E). apply doc_at_nf.
+Qed.
+
+Lemma active_fetch_ok : forall g f ids,
+  f_sealed f = false -> docs_wf (f_docs f) -> layout_wf f -> Forall id_u64 ids ->
+  frac_fetch g (compile f) ids = Ok (map (lookup f) ids).
+Proof.
+  intros g f ids Hs Hw Hl Hu. unfold frac_fetch, frac_fetch_gen. rewrite cf_compile, Hs, cf_phys_compile.
+  assert (Ek : N.of_nat (length (p_boffs (phys_of f))) = N.of_nat (length (blocks_of f))).
+  { unfold phys_of. cbn [p_boffs]. rewrite block_offsets_length. reflexivity. }
+  rewrite Ek. replace (p_apos (phys_of f)) with (apos_of f) by reflexivity.
+  rewrite Forall_forall in Hu. rewrite phys_fetch.
+  - f_equal. rewrite map_map. apply map_ext_in. intros x Hx. apply active_pos_ok; auto.
+  - apply Forall_forall. intros p Hp. apply in_map_iff in Hp. destruct Hp as [x [E Hx]]. subst p.
+    apply active_pos_ok; auto.
+Qed.
+
+(* ------------------------------------------------------------------ 7. the sealed fraction *)
+Lemma docs_of_lids_inv : forall c lids exp, docs_of_lids c lids = Ok exp ->
+  Forall2 (fun l e => if l =? 0 then e = None
+                      else exists ent, tbl_get c l = Some ent /\ e = Some (snd ent)) lids exp.
+Proof.
+  induction lids as [|l r IH]; intros exp H.
+  - cbn [docs_of_lids] in H. inversion H. constructor.
+  - cbn [docs_of_lids] in H. destruct (docs_of_lids c r) as [t| |] eqn:E; try discriminate.
+    destruct (l =? 0) eqn:E0.
+    + inversion H; subst. constructor; [rewrite E0; reflexivity|apply IH; reflexivity].
+    + destruct (tbl_get c l) as [ent|] eqn:Et; [|discriminate]. inversion H; subst.
+      constructor; [rewrite E0; exists ent; auto|apply IH; reflexivity].
+Qed.
+
+Lemma sealed_pos_ok : forall f l ent, f_sealed f = true -> docs_wf (f_docs f) -> layout_wf f ->
+  l <> 0 -> tbl_get (compile f) l = Some ent ->
+  pos_ok f (nth (N.to_nat l) (ptab_of f) 0) /\ doc_at f (nth (N.to_nat l) (ptab_of f) 0) = Some (snd ent).
+Proof.
+  intros f l ent Hs Hw Hl Hn Ht. rewrite tbl_get_compile in Ht by exact Hs.
+  assert (Hin : In ent (f_docs f)).
+  { apply table_in. exists (N.to_nat l). split; [lia|exact Ht]. }
+  destruct ent as [x d].
+  destruct (stored_pos f x d Hw Hl Hin) as [b [o [blk [Hb [Hb2 [Ho [Hf [Hblk Hd]]]]]]]].
+  assert (En : nth (N.to_nat l) (ptab_of f) 0 = raw_pos b o).
+  { apply nth_error_nth. unfold ptab_of. rewrite (map_nth_error _ _ _ Ht).
+    unfold pos_lookup. cbn [fst]. rewrite Hf. reflexivity. }
+  rewrite En. cbn [snd]. apply (doc_at_stored f b o blk d); assumption.
+Qed.
+
+Lemma sealed_positions : forall f lids exp, f_sealed f = true -> docs_wf (f_docs f) -> layout_wf f ->
+  Forall2 (fun l e => if l =? 0 then e = None
+                      else exists ent, tbl_get (compile f) l = Some ent /\ e = Some (snd ent)) lids exp ->
+  let posl := fun l => if l =? 0 then pos_not_found else nth (N.to_nat l) (ptab_of f) 0 in
+  Forall (pos_ok f) (map posl lids) /\ map (doc_at f) (map posl lids) = exp /\
+  Forall (fun l => l < N.of_nat (length (ptab_of f))) lids.
+Proof.
+  intros f lids exp Hs Hw Hl Hdl posl.
+  assert (Hlen : (1 <= length (ptab_of f))%nat).
+  { unfold ptab_of, table_of. cbn [map length]. lia. }
+  induction Hdl as [|l e lids' exp' Hle Hrest IH]; [split; [constructor|split; [reflexivity|constructor]]|].
+  destruct IH as [IH1 [IH2 IH3]]. cbn [map].
+  assert (Hone : pos_ok f (posl l) /\ doc_at f (posl l) = e /\ l < N.of_nat (length (ptab_of f))).
+  { unfold posl. destruct (l =? 0) eqn:E0.
+    - subst e. apply N.eqb_eq in E0. split; [apply doc_at_nf|]. split; [apply doc_at_nf|lia].
+    - destruct Hle as [ent [Ht He]]. subst e. apply N.eqb_neq in E0.
+      destruct (sealed_pos_ok f l ent Hs Hw Hl E0 Ht) as [S1 S2]. split; [exact S1|]. split; [exact S2|].
+      rewrite tbl_get_compile in Ht by exact Hs.
+      assert (Hs' : nth_error (table_of f) (N.to_nat l) <> None) by congruence.
+      apply nth_error_Some in Hs'. unfold ptab_of. rewrite map_length. lia. }
+  destruct Hone as [O1 [O2 O3]]. split; [constructor; assumption|].
+  split; [rewrite O2, IH2; reflexivity|constructor; assumption].
+Qed.
+
+Lemma sealed_fetch_ok : forall g f ids,
+  1 <= ipb g -> f_sealed f = true -> docs_wf (f_docs f) -> layout_wf f ->
+  frac_fetch g (compile f) ids = Ok (map (lookup f) ids).
+Proof.
+  intros g f ids Hg Hs Hw Hl.
+  destruct (sealed_find_lids_ok g f ids Hg Hs Hw) as [lids [Hfl Hdl]]. unfold find_lids in Hfl.
+  unfold frac_fetch, frac_fetch_gen. rewrite cf_compile, Hs, Hfl, cf_phys_compile.
+  assert (Ept : p_ptab (phys_of f) = build_ptab (ptab_of f) 0 (PositiveMap.empty N)).
+  { unfold phys_of. cbn [p_ptab]. rewrite Hs. reflexivity. }
+  assert (En : cf_n (compile f) = N.of_nat (length (ptab_of f))).
+  { rewrite cf_n_compile by exact Hs. unfold ptab_of. rewrite map_length. reflexivity. }
+  rewrite Ept, En. apply docs_of_lids_inv in Hdl.
+  destruct (sealed_positions f lids _ Hs Hw Hl Hdl) as [H1 [H2 H3]].
+  rewrite pos_by_lids_ok; [|exact Hg|exact H3|intros pi ps H; discriminate].
+  rewrite phys_fetch by exact H1. rewrite H2. reflexivity.
+Qed.
+
+Print Assumptions sealed_fetch_ok.
+Print Assumptions active_fetch_ok.
